@@ -17,6 +17,7 @@ ap.add_argument("--seed", type=int, default=1)
 ap.add_argument("--workers", type=int, default=2)
 ap.add_argument("--out", default="/verif/seeded/MUTSWEEP.json")
 ap.add_argument("--govc", default="/verif/bin/govc")
+ap.add_argument("--skip", nargs="*", default=[], help="result files of earlier sweeps: their sites are not run again")
 a = ap.parse_args()
 ENV = dict(os.environ, GOFLAGS="", GOPROXY="off", GOSUMDB="off", GOTOOLCHAIN="local")
 MUT = "/tmp/mutate"
@@ -28,6 +29,17 @@ for f in sorted(files):
     n = int(subprocess.run([MUT, "-file", f, "-list"], capture_output=True, text=True).stdout.strip() or 0)
     sites += [(f, k) for k in range(n)]
 random.Random(a.seed).shuffle(sites)
+if a.skip:
+    seen = set()
+    for f in a.skip:
+        for r in json.load(open(f)):
+            seen.add(r["site"])
+    keep = []
+    for (f, k) in sites:
+        d = subprocess.run([MUT, "-file", f, "-n", str(k)], capture_output=True, text=True).stderr.strip().splitlines()[-1].replace("/repo/", "")
+        if d not in seen:
+            keep.append((f, k))
+    sites = keep
 sites = sites[: a.sample]
 print(f"{len(files)} files, sampling {len(sites)} mutation sites", flush=True)
 
